@@ -361,7 +361,7 @@ class Parser:
     def parse_integer_literal(self, stream: TokenStream) -> Expression:
         value = stream.current.value
         # The integer part ends where the exponent starts.
-        int_part = value.lower().split("e")[0]
+        int_part = value.lstrip("-").lower().split("e")[0]
         if int_part.startswith("0") and len(int_part) > 1:
             raise JSONPathSyntaxError("invalid integer literal", token=stream.current)
 
@@ -376,7 +376,7 @@ class Parser:
     def parse_float_literal(self, stream: TokenStream) -> Expression:
         value = stream.current.value
         # The integer part ends where the fraction or the exponent starts.
-        int_part = value.lower().split("e")[0].split(".")[0]
+        int_part = value.lstrip("-").lower().split("e")[0].split(".")[0]
         if int_part.startswith("0") and len(int_part) > 1:
             raise JSONPathSyntaxError("invalid float literal", token=stream.current)
 
